@@ -285,6 +285,10 @@ if __name__ == '__main__':
                     with open(f'/proc/{d_}/stat') as fh_:
                         ppid_ = int(fh_.read().rsplit(')', 1)[1].split()[1])
                     if ppid_ == me:
+                        with open(f'/proc/{d_}/cmdline', 'rb') as fh_:
+                            cmd_ = fh_.read()
+                        if b'resource_tracker' in cmd_:
+                            continue       # multiprocessing's tracker unlinks the pools' semaphores once this process is gone
                         os.kill(int(d_), signal.SIGKILL)
                 except (OSError, ValueError, IndexError):
                     pass
